@@ -39,7 +39,7 @@ KNOWN_TEXT = {
             'temporary buffer (unaligned offset / length / buffer) returns -1 where a plain file succeeds, because AlignedAlloc calls '
             'posix_memalign() with an alignment below sizeof(void*) (EINVAL) (common/io-alloc.h:104, used by fs/aligned-file.cpp:51)',
 }
-PROVISIONAL = {'C16a'}
+PROVISIONAL = set()      # C16a repaired by fix: commit 3b25e23
 TOLERATED = set(PROVISIONAL)     # run()/replay() add the ids listed open for C16 in known-findings.json
 
 
